@@ -45,7 +45,7 @@ SIM_FAULTS = {"sim-step": "step", "sim-readback": "readback", "sim-actions": "ac
 COMPILE_FAULTS = ["compile-model-import", "compile-raise", "compile-syntax"]
 FAULTS = (["none", "none", "none", "raise-main", "reject-main", "terminate-main", "monitor", "record", "raise-require",
            "raise-terminate-when", "terminate-sim-main", "base-main"] + sorted(NEED_BEH) + sorted(NEED_SUB)
-          + sorted(SIM_FAULTS) + COMPILE_FAULTS)
+          + 3 * sorted(SIM_FAULTS) + COMPILE_FAULTS)
 
 
 def gen_items(rng, depth, nsubs, first_sub=0, in_setup=False, in_beh=False, has_dyn=False):
@@ -129,6 +129,9 @@ def gen_program(rng, idx):
     if idx % 6 == 5:
         return gen_siblings(rng)
     fault = rng.choice(FAULTS)
+    forced_step = None
+    if idx % 12 == 1:  # the simulator fails while creating the ego / the second object, after having written to it
+        fault, forced_step = "sim-create", (idx // 12) % 2
     nsubs = rng.randint(0, 3)
     if fault in NEED_SUB:
         nsubs = max(nsubs, 1)
@@ -153,8 +156,11 @@ def gen_program(rng, idx):
     beh = None
     if rng.random() < 0.6 or fault in NEED_BEH:
         beh = gen_items(rng, 0, 0, in_beh=True)
-    return dict(main=main, subs=subs, beh=beh, fault=fault, fault_pos=rng.randint(0, 6), fault_step=rng.randint(0, 3),
+    prog = dict(main=main, subs=subs, beh=beh, fault=fault, fault_pos=rng.randint(0, 6), fault_step=rng.randint(0, 3),
                 raise_guard=rng.random() < 0.5, nsreq=rng.random() < 0.4, mode2D=rng.random() < 0.3)
+    if forced_step is not None:
+        prog["fault_step"] = forced_step
+    return prog
 
 
 def fail_lines(kind):
@@ -195,7 +201,6 @@ def emit_items(items, ind, fail=None, fail_pos=None, in_beh=False, applyto_fail=
             L.append(f"{pad}override objs()[{it[1]}] with behavior B2")
             L.append(f'{pad}rec("O", cur(), {it[1]}, 4, 2)')
         elif it[0] == "N":
-            L.append(f"{pad}global G{it[1]}")
             L.append(f"{pad}G{it[1]} = {it[2]}")
             L.append(f'{pad}rec("N", {it[1]}, {it[2]})')
         elif it[0] == "A":
@@ -232,12 +237,16 @@ def to_scenic(prog):
             L.append(f"    invariant: boom({fs}) == 0")
         if f == "reject-invariant-beh":
             L.append(f"    invariant: rej({fs}) == 0")
+        if f not in ("raise-interrupt-cond", "reject-interrupt-cond"):
+            L.append("    global G0, G1")
         bf = {"raise-behavior": "raise", "reject-behavior": "reject", "terminate-sim-behavior": "terminate-sim",
               "base-behavior": "base"}.get(f)
         items = list(prog["beh"])
         if f == "raise-applyto" and not any(it[0] == "A" for it in items):
             items.append(["A", 0, 555])
         intr = f in ("raise-interrupt-cond", "reject-interrupt-cond")
+        if intr:  # the body of a try-interrupt is compiled into a nested function: no global assignments there
+            items = [it for it in items if it[0] != "N"]
         ind = 8 if intr else 4
         body = emit_items(items, ind, fail=bf, fail_pos=fp if bf else None, in_beh=True, applyto_fail=(f == "raise-applyto"))
         if f == "guard":
